@@ -48,6 +48,17 @@ fn main() {
         (_, Tier::Thorough) => 40_000,
         (_, Tier::Search) => 20_000,
     };
+    // targeted family: remove + re-add of a member concurrent with access changes of that member
+    let ntarget = match (prop.as_str(), &args.tier) {
+        ("C31", Tier::Quick) => 200,
+        ("C31", _) => 1_500,
+        (_, Tier::Quick) => 10,
+        _ => 100,
+    };
+    for i in 0..ntarget {
+        let sub = rng.next_u64() >> 16;
+        hist::targeted_history(&mut cx, sub, i % 4 == 0);
+    }
     for _ in 0..histories {
         let sub = rng.next_u64() >> 16;
         let unit = rng.chance(1, 3);
@@ -71,7 +82,7 @@ fn main() {
     let rule = if prop == "C33" {
         "state-level: every add/remove/promote/demote call over all 3-member states of a small domain x 3 actors x 4 targets (exhaustive) + random larger states; history-level: random multi-peer histories (3-6 actors, 1-3 groups incl. nesting, partial views, 30% unauthorised / invalid / duplicate / cyclic / manager-group / stale-dependency actions, C = () and C = u8 conditions), every process() decision compared with the model relative to the real state at the dependencies. non-trivial = a decision line of a history with at least one concurrent rebuild, one rejected operation and one nested group, or a state-level call that is rejected / by a non-manager"
     } else {
-        "random multi-peer histories (3-6 actors, 1-3 groups incl. nesting, partial views, unauthorised actions, C = () and C = u8 conditions on 30% of accesses); each accepted operation set re-processed by 4 fresh replicas in random causal orders (all queried twice after every operation); members / groups / root_members compared between replicas and with the model's traversal fed with the replica's own states at its heads. non-trivial = history with at least one concurrent rebuild, one rejected operation and one nested group"
+        "targeted family (remove + 2-3 concurrent re-adds of a member, or remove+re-add branches, concurrent with access changes of that member, optional merge point + two concurrent access changes; no conditions, no nesting): every causal delivery order (cap 600 / 120) replayed on its own replica, replicas queried 25 times; random multi-peer histories (3-6 actors, 1-3 groups incl. nesting, partial views, unauthorised actions, C = () and C = u8 conditions on 30% of accesses); each accepted operation set re-processed by 4 fresh replicas in random causal orders (all queried twice after every operation); members / groups / root_members compared between replicas and with the model's traversal fed with the replica's own states at its heads. non-trivial = history with at least one concurrent rebuild, one rejected operation and one nested group"
     };
     cx.out.finish(rule, false);
 }
